@@ -690,6 +690,197 @@ Qed.
 Definition R' (v : nat -> tv) (e : expr) (p : bool * sem) : Prop :=
   R v e p /\ is_or e = fst p /\ first_ok v e.
 
+(* ---- the chain method Not over a clause-expression nest ---- *)
+(* the unknown value is its own negation: the structural facts of [all_cexpr] need no valuation *)
+Definition vU : nat -> tv := fun _ => TU.
+Lemma neg_pairs_vU ms : neg_pairs_ok vU ms.
+Proof. intros p _. reflexivity. Qed.
+
+(* ---- clause.And with one operand is that operand ---- *)
+Lemma cpairs_strip : forall c, cpairs (cstrip c) = cpairs c.
+Proof.
+  induction c as [a na|tmpl txt|l IH|l IH|l IH] using cexpr_ind'; try reflexivity.
+  destruct l as [|x [|y r]]; try reflexivity.
+  inversion IH as [|? ? Hx _]; subst. cbn [cstrip cpairs flat_map]. rewrite app_nil_r. exact Hx.
+Qed.
+
+Lemma cdom_strip tbl : forall c, cdom tbl c = true -> is_single_cor c = false ->
+  cdom tbl (cstrip c) = true /\ is_single_cor (cstrip c) = false.
+Proof.
+  induction c as [a na|tmpl txt|l IH|l IH|l IH] using cexpr_ind'; intros Hd Hs; try (split; assumption).
+  destruct l as [|x [|y r]]; try (split; assumption).
+  inversion IH as [|? ? Hx _]; subst. cbn [cstrip].
+  cbn [cdom forallb] in Hd. rewrite andb_true_r in Hd. cbn [andb] in Hd.
+  apply andb_prop in Hd. destruct Hd as [Hdx Hsx]. apply negb_true_iff in Hsx.
+  apply Hx; assumption.
+Qed.
+
+(* the stripped nest is never a single-operand clause.And *)
+Lemma strip_shape : forall c, match cstrip c with CAndE [_] => False | _ => True end.
+Proof.
+  induction c as [a na|tmpl txt|l IH|l IH|l IH] using cexpr_ind'; try exact I.
+  destruct l as [|x [|y r]]; try exact I.
+  inversion IH as [|? ? Hx _]; subst. cbn [cstrip]. exact Hx.
+Qed.
+
+(* what Where / Not / Or receive is the same for the nest and for the stripped nest *)
+Lemma build_strip tbl : forall c, cdom tbl c = true ->
+  build_cond tbl (UExpr c) = build_cond tbl (UExpr (cstrip c)).
+Proof.
+  induction c as [a na|tmpl txt|l IH|l IH|l IH] using cexpr_ind'; intros Hd; try reflexivity.
+  destruct l as [|x [|y r]]; try reflexivity.
+  inversion IH as [|? ? Hx _]; subst. cbn [cstrip].
+  cbn [cdom forallb] in Hd. rewrite andb_true_r in Hd. cbn [andb] in Hd.
+  apply andb_prop in Hd. destruct Hd as [Hdx _].
+  rewrite <- (Hx Hdx).
+  destruct (all_cexpr tbl vU x Hdx (neg_pairs_vU _)) as (ex & sx & Hcx & _).
+  cbn [build_cond]. rewrite cx_and. cbn [cxs_top]. rewrite Hcx. cbn [olist app mk_and].
+  destruct (is_or ex) eqn:E; cbn [olist mk_and is_or]; [reflexivity|]. rewrite E. reflexivity.
+Qed.
+
+(* the value of the nest and of the stripped nest *)
+Lemma csem_strip tbl v : forall c, cdom tbl c = true ->
+  forall s s', csem tbl c = Some s -> csem tbl (cstrip c) = Some s' -> sev v s = sev v s'.
+Proof.
+  induction c as [a na|tmpl txt|l IH|l IH|l IH] using cexpr_ind'; intros Hd s s' Hs Hs';
+    try (cbn [cstrip] in Hs'; rewrite Hs in Hs'; inversion Hs'; reflexivity).
+  destruct l as [|x [|y r]]; try (cbn [cstrip] in Hs'; rewrite Hs in Hs'; inversion Hs'; reflexivity).
+  inversion IH as [|? ? Hx _]; subst. cbn [cstrip] in Hs'.
+  cbn [cdom forallb] in Hd. rewrite andb_true_r in Hd. cbn [andb] in Hd.
+  apply andb_prop in Hd. destruct Hd as [Hdx _].
+  rewrite csem_and in Hs. cbn [csems_top] in Hs.
+  destruct (csem tbl x) as [sx|] eqn:Ex; [|discriminate]. inversion Hs; subst s.
+  cbn [sev map fold_right]. rewrite tv_and_TT_r. exact (Hx Hdx sx s' eq_refl Hs').
+Qed.
+
+(* every member negated *)
+Lemma negs_Rm v : forall es ss, Forall2 (Rm v) es ss -> Forall (first_ok v) es ->
+  evT v (negsT es) = sev v (SAnd (map SNot ss)).
+Proof.
+  induction 1 as [|e s es ss [_ [Hc Hd]] _ IH]; intros Hf; [reflexivity|].
+  inversion Hf as [|? ? Hfe Hfr]; subst.
+  cbn [negsT map]. rewrite evT_cons, (IH Hfr).
+  change (sev v (SAnd (SNot s :: map SNot ss))) with (tv_and (tv_not (sev v s)) (sev v (SAnd (map SNot ss)))).
+  f_equal. rewrite <- Hd.
+  destruct e as [a na| | | | |]; try (cbn [evF]; rewrite evF_item by exact Hc; reflexivity).
+  cbn [evF]. cbn [first_ok] in Hfe. rewrite Hfe, dx_atom. reflexivity.
+Qed.
+
+Lemma no_single_or_members (Q : cexpr -> expr -> Prop) : forall l es,
+  Forall2 (fun c e => is_single_or e = is_single_cor c /\ Q c e) l es ->
+  forallb (fun x => negb (is_single_cor x)) l = true -> existsb is_single_or es = false.
+Proof.
+  induction 1 as [|c e l es [H1 _] _ IH]; intros Hn; [reflexivity|].
+  cbn [forallb] in Hn. apply andb_prop in Hn. destruct Hn as [Hc Hr]. apply negb_true_iff in Hc.
+  cbn [existsb]. rewrite H1, Hc. exact (IH Hr).
+Qed.
+
+Lemma first_ok_members v (Q1 Q2 : cexpr -> expr -> Prop) : forall l es,
+  Forall2 (fun c e => Q1 c e /\ first_ok v e /\ Q2 c e) l es -> Forall (first_ok v) es.
+Proof. induction 1 as [|c e l es [_ [H2 _]] _ IH]; constructor; assumption. Qed.
+
+(* nests the chain method Not can be applied to inside the domain: the built expression is not an
+   AND of several members, or one of the members has a structured negation *)
+Definition nneg (tbl : atom_table) (c : cexpr) : bool :=
+  match build_cond tbl (UExpr c) with
+  | Some [XAnd ((_ :: _ :: _) as l)] => existsb is_atom l
+  | Some [_] => true
+  | _ => false
+  end.
+
+Lemma expr_unit_not v tbl c e m n :
+  cdom tbl c = true -> is_single_cor c = false -> neg_pairs_ok v (cpairs c) -> nneg tbl c = true ->
+  build_cond tbl (UExpr c) = Some [e] -> umean tbl (UExpr c) = Some (Some (m, n)) ->
+  exists nx, mk_not [e] = Some nx /\ okx nx = true /\ closedx nx = true /\ is_or nx = false /\
+             dx v nx = sev v n.
+Proof.
+  intros Hd Hs Hn Hng Hb Hm.
+  destruct (cdom_strip tbl c Hd Hs) as [Hd' Hs'].
+  unfold nneg in Hng. rewrite Hb in Hng.
+  rewrite (build_strip tbl c Hd) in Hb.
+  rewrite <- cpairs_strip in Hn.
+  (* the Not-reading is defined on the stripped nest *)
+  cbn [umean] in Hm. destruct (csem tbl c) as [s|] eqn:Ecs; [|discriminate].
+  pose proof (strip_shape c) as Hshape.
+  remember (cstrip c) as c' eqn:Ec'.
+  destruct (all_cexpr tbl v c' Hd' Hn) as (e0 & s' & Hcx & Hcs' & Hok & Hcl & Hdx & Hso & Hfo & Hxa).
+  assert (Hsev : sev v s = sev v s') by (subst c'; exact (csem_strip tbl v c Hd s s' Ecs Hcs')).
+  rewrite Hcs' in Hm.
+  cbn [build_cond] in Hb. rewrite Hcx in Hb. cbn [olist mk_and] in Hb.
+  destruct c' as [a na|tmpl txt|l|l|l].
+  - (* atom *)
+    cbn [cx] in Hcx. inversion Hcx; subst e0. cbn [is_or olist] in Hb. inversion Hb; subst e.
+    inversion Hm; subst m n. cbn [csem] in Hcs'. inversion Hcs'; subst s'.
+    exists (XNot [XAtom a na]). cbn [first_ok] in Hfo.
+    split; [reflexivity|]. split; [reflexivity|]. split; [reflexivity|]. split; [reflexivity|].
+    cbn [sev]. rewrite Hsev. cbn [sev].
+    unfold dx. rewrite toE_not. cbn. rewrite Hfo. destruct (v a); reflexivity.
+  - (* raw *)
+    specialize (Hxa eq_refl).
+    assert (Hna : is_atom e0 = false).
+    { cbn [cx] in Hcx. destruct (lex tbl txt); [|discriminate]. inversion Hcx; reflexivity. }
+    assert (Hor : is_or e0 = false).
+    { cbn [cx] in Hcx. destruct (lex tbl txt); [|discriminate]. inversion Hcx; reflexivity. }
+    rewrite Hor in Hb. cbn [olist] in Hb. inversion Hb; subst e. inversion Hm; subst m n.
+    assert (Hmk : mk_not [e0] = Some (XNot [e0])) by (destruct e0; try reflexivity; discriminate).
+    assert (Hna1 : existsb is_atom [e0] = false) by (cbn; rewrite Hna; reflexivity).
+    destruct (not_single_raw v e0 Hok Hcl Hna1) as [H1 [H2 H3]].
+    exists (XNot [e0]). split; [exact Hmk|]. split; [exact H1|]. split; [exact H2|]. split; [reflexivity|].
+    cbn [sev]. rewrite Hsev, H3, Hdx. reflexivity.
+  - (* And: several members (a single one was stripped) *)
+    cbn [cdom] in Hd'. apply andb_prop in Hd'. destruct Hd' as [Hne Hall].
+    assert (Hdom : forallb (cdom tbl) l = true).
+    { clear -Hall. induction l as [|x r IHr]; [reflexivity|]. cbn in *. apply andb_prop in Hall. destruct Hall as [Hx Hr].
+      apply andb_prop in Hx. destruct Hx as [Hx _]. rewrite Hx, (IHr Hr). reflexivity. }
+    assert (Hnsc : forallb (fun x => negb (is_single_cor x)) l = true).
+    { clear -Hall. induction l as [|x r IHr]; [reflexivity|]. cbn in *. apply andb_prop in Hall. destruct Hall as [Hx Hr].
+      apply andb_prop in Hx. destruct Hx as [_ Hx]. rewrite Hx, (IHr Hr). reflexivity. }
+    cbn [cpairs] in Hn.
+    assert (HPc : Forall (Pc tbl v) l) by (apply Forall_forall; intros x _; apply all_cexpr).
+    destruct (members tbl v l HPc Hdom Hn) as (es & ss & Hxs & Hss & HR & HF).
+    rewrite cx_and, Hxs in Hcx. rewrite csem_and, Hss in Hcs'. inversion Hcs'; subst s'.
+    destruct l as [|x [|y r]]; [discriminate|exact (False_ind _ Hshape)|].
+    inversion HF as [|? e1 ? es1 Hf1 HF1]; subst. inversion HF1 as [|? e2 ? es2 Hf2 HF2]; subst.
+    cbn [mk_and] in Hcx. inversion Hcx; subst e0. cbn [is_or olist] in Hb. inversion Hb; subst e.
+    cbn [existsb] in Hng.
+    inversion Hm; subst m n.
+    set (es := e1 :: e2 :: es2) in *.
+    assert (Hnso : existsb is_single_or (tl es) = false).
+    { cbn [forallb] in Hnsc. apply andb_prop in Hnsc. destruct Hnsc as [_ Hnsc].
+      unfold es. cbn [tl]. exact (no_single_or_members _ _ _ HF1 Hnsc). }
+    assert (Hfo' : Forall (first_ok v) es).
+    { exact (first_ok_members v _ _ _ _ HF). }
+    assert (Hat : existsb is_atom es = true) by exact Hng.
+    exists (XNot es). split; [reflexivity|].
+    split; [rewrite okx_not; exact (Rm_oksL v es ss HR)|].
+    split; [unfold closedx; rewrite toE_not, Hat, Hnso; apply orb_true_r|].
+    split; [reflexivity|].
+    unfold dx. rewrite toE_not, Hat, Hnso. cbn [andb negb gt1 es].
+    rewrite evE_single, evT_single, evF_par, evE_single. exact (negs_Rm v es ss HR Hfo').
+  - (* Or *)
+    specialize (Hxa eq_refl).
+    rewrite cx_or in Hcx. destruct (cxs_top tbl l) as [es|] eqn:Exs; [|discriminate].
+    destruct es as [|e1 es']; [discriminate|]. cbn [mk_or] in Hcx. inversion Hcx; subst e0.
+    cbn [is_or olist] in Hb. inversion Hb; subst e. inversion Hm; subst m n.
+    assert (Hna1 : existsb is_atom [XOr (e1 :: es')] = false) by reflexivity.
+    destruct (not_single_raw v _ Hok Hcl Hna1) as [H1 [H2 H3]].
+    exists (XNot [XOr (e1 :: es')]). split; [reflexivity|]. split; [exact H1|]. split; [exact H2|]. split; [reflexivity|].
+    cbn [sev]. rewrite Hsev, H3, Hdx. reflexivity.
+  - (* Not *)
+    rewrite cx_not in Hcx. destruct (cxs_top tbl l) as [es|] eqn:Exs; [|discriminate].
+    assert (Hform : exists k, e0 = XNot k).
+    { destruct es as [|e1 [|e2 r]]; cbn [mk_not] in Hcx.
+      - discriminate.
+      - destruct e1; inversion Hcx; subst; eexists; reflexivity.
+      - destruct e1; inversion Hcx; subst; eexists; reflexivity. }
+    destruct Hform as [k ->].
+    cbn [is_or olist] in Hb. inversion Hb; subst e. inversion Hm; subst m n.
+    assert (Hna1 : existsb is_atom [XNot k] = false) by reflexivity.
+    destruct (not_single_raw v _ Hok Hcl Hna1) as [H1 [H2 H3]].
+    exists (XNot [XNot k]). split; [reflexivity|]. split; [exact H1|]. split; [exact H2|]. split; [reflexivity|].
+    cbn [sev]. rewrite Hsev, H3, Hdx. reflexivity.
+Qed.
+
 (* units the chain method Not can be applied to inside the theorem's domain: flat units, and
    groups with at least two effective members that either contain an OR alternative (negated as a
    whole) or have a member with a structured negation (every member negated); the remaining
@@ -701,6 +892,7 @@ Definition negatable (tbl : atom_table) (u : unit_) : bool :=
     | Some ((_ :: _ :: _) as wh) => existsb is_single_or (tl wh) || existsb is_atom wh
     | _ => false
     end
+  | UExpr c => flat tbl u || (cdom tbl c && negb (is_single_cor c) && nneg tbl c)
   | _ => flat tbl u
   end.
 
@@ -835,7 +1027,8 @@ Proof.
     - cbn [orb] in Hd. apply andb_prop in Hd. destruct Hd as [Hd Hs]. apply negb_true_iff in Hs.
       destruct (expr_unit v tbl c conds mm Hd Hs Hn Hb Hm) as (e & m & n & -> & -> & H1 & H2 & H3 & H4 & H5).
       right. exists e, m, n. repeat split; try assumption.
-      cbn [negatable]. rewrite Ef. discriminate. }
+      cbn [negatable]. rewrite Ef, Hd, Hs. cbn [orb andb negb]. intros Hng.
+      exact (expr_unit_not v tbl c e m n Hd Hs Hn Hng Hb Hm). }
   (* group *)
   rewrite domx_group in Hd. apply andb_prop in Hd. destruct Hd as [Hfirst Hd].
   rewrite unit_pairs_group in Hn. rewrite build_cond_group in Hb. rewrite umean_group in Hm.
